@@ -197,6 +197,13 @@ type zzC09ValObs struct {
 	ndlg                               int
 	dlgToken, dlgStake                 *big.Int // of the harness delegator, if listed first
 	dlgListed                          bool
+	// the rest of the record
+	expelled                               bool
+	expelExpired, lastInactive, lastActive uint64
+	rewardsDist, rewardsTotal              *big.Int
+	rewardsLastSettled                     uint64
+	commission, risk, accept               uint16
+	operator, coinbase                     common.Address
 }
 
 type zzC09VObs struct {
@@ -219,7 +226,10 @@ func zzC09ObserveVal(s *StateDB, d common.Address) zzC09VObs {
 			continue
 		}
 		vo := zzC09ValObs{present: true, role: uint8(v.Role), status: v.Status, token: new(big.Int).Set(v.Token), stake: new(big.Int).Set(v.Stake),
-			selfToken: new(big.Int).Set(v.SelfToken), selfStake: new(big.Int).Set(v.SelfStake), ndlg: len(v.Delegations)}
+			selfToken: new(big.Int).Set(v.SelfToken), selfStake: new(big.Int).Set(v.SelfStake), ndlg: len(v.Delegations),
+			expelled: v.Expelled, expelExpired: v.ExpelExpired, lastInactive: v.LastInactive, lastActive: v.LastActive(),
+			rewardsDist: new(big.Int).Set(v.RewardsDistributable), rewardsTotal: new(big.Int).Set(v.RewardsTotal), rewardsLastSettled: v.RewardsLastSettled,
+			commission: v.CommissionRate, risk: v.RiskObligation, accept: v.AcceptDelegation, operator: v.OperatorAddress, coinbase: v.Coinbase}
 		if len(v.Delegations) > 0 && v.Delegations[0] != nil {
 			vo.dlgListed = v.Delegations[0].Delegator == d
 			vo.dlgToken = new(big.Int).Set(v.Delegations[0].Token)
@@ -267,7 +277,10 @@ func zzC09SameVal(x, y zzC09VObs) bool {
 		if a.present && b.present {
 			oks = append(oks, a.role == b.role, a.status == b.status, zzC09BigSame(a.token, b.token), zzC09BigSame(a.stake, b.stake),
 				zzC09BigSame(a.selfToken, b.selfToken), zzC09BigSame(a.selfStake, b.selfStake), a.ndlg == b.ndlg,
-				a.dlgListed == b.dlgListed, zzC09BigSame(a.dlgToken, b.dlgToken), zzC09BigSame(a.dlgStake, b.dlgStake))
+				a.dlgListed == b.dlgListed, zzC09BigSame(a.dlgToken, b.dlgToken), zzC09BigSame(a.dlgStake, b.dlgStake),
+				a.expelled == b.expelled, a.expelExpired == b.expelExpired, a.lastInactive == b.lastInactive, a.lastActive == b.lastActive,
+				zzC09BigSame(a.rewardsDist, b.rewardsDist), zzC09BigSame(a.rewardsTotal, b.rewardsTotal), a.rewardsLastSettled == b.rewardsLastSettled,
+				a.commission == b.commission, a.risk == b.risk, a.accept == b.accept, a.operator == b.operator, a.coinbase == b.coinbase)
 		}
 	}
 	for i := range x.stats {
